@@ -60,7 +60,10 @@ structure Facts where
   mkRes : LocalResult
   offTrunc : Option Int
   offRes : Option Int
-  chg : Option Bool
+  /-- how far after `current` the zone was searched for an offset change (seconds) … -/
+  horizon : Int := 0
+  /-- … and the first such change found (UTC seconds), if any -/
+  tr1 : Option Int := none
   rciv : Option CivilTime
   /-- month/year: the civil date the repaired code resolves, and chrono's naive seconds of it -/
   tgtCivil : Option CivilTime := none
@@ -78,7 +81,8 @@ inductive Clause where
 /-- Can the boundary the statement names be an instant of chrono's time line at all?
 `exact`: yes, it must be hit. `never`: it lies beyond the last representable instant (absurd
 multiplier); all an implementation can do is never roll, i.e. answer an instant at or after `FAR`.
-`either`: within two days of the end of the time line, where local and UTC range checks differ. -/
+`either`: within 25 hours of the end of the time line, where local and UTC range checks differ:
+the exact boundary or "never" are both accepted there. -/
 inductive Reach where
   | exact | never | either
   deriving DecidableEq, Repr
@@ -88,9 +92,39 @@ def reach (f : Facts) (u : IUnit) (n : Int) (modulate : Bool) : Reach :=
     if expectedMonthIndex f.civ u n modulate / 12 > 262142 then .never else .exact
   else
     let expUtc := expectedLocal f.civ f.lnow u n modulate - f.offNow
-    if expUtc > DT_MAX + 172800 then .never
-    else if expUtc > DT_MAX - 172800 then .either
+    if expUtc > DT_MAX + 90000 then .never
+    else if expUtc > DT_MAX - 90000 then .either
     else .exact
+
+/-- UTC seconds of the boundary the statement names, under the offset in force at `current`
+(month/year: chrono's naive seconds of the first of the expected month, when the harness reported
+that very date) -/
+def expectedUtc (f : Facts) (u : IUnit) (n : Int) (modulate : Bool) : Option Int :=
+  if isCalendarUnit u then
+    if f.tgtCivil = some (civilOfMonthIndex (expectedMonthIndex f.civ u n modulate)) then
+      f.tgtLocal.map (· - f.offNow)
+    else none
+  else some (expectedLocal f.civ f.lnow u n modulate - f.offNow)
+
+/-- "The zone's UTC offset does not change in between": between `current` and the EXPECTED boundary
+— not the implementation's own answer, which could excuse itself by landing elsewhere. `none`:
+not decidable from what was observed (boundary beyond the searched horizon). -/
+def offsetUnchanged (f : Facts) (u : IUnit) (n : Int) (modulate : Bool) : Option Bool :=
+  match expectedUtc f u n modulate with
+  | none => none
+  | some x =>
+    match f.tr1 with
+    | some t => some (decide (x < t))
+    | none => if x ≤ f.now + f.horizon then some true else none
+
+/-- the boundary equation itself -/
+def onBoundary (f : Facts) (u : IUnit) (n : Int) (modulate : Bool) (r : Int) : Bool :=
+  if isCalendarUnit u then
+    f.rciv = some (civilOfMonthIndex (expectedMonthIndex f.civ u n modulate))
+  else
+    match f.offRes with
+    | some o => r + o = expectedLocal f.civ f.lnow u n modulate
+    | none => false
 
 /-- the first clause of the statement that the observed result violates, if any -/
 def checkNext (f : Facts) (u : IUnit) (n : Int) (modulate : Bool) (result : Option Int) : Option Clause :=
@@ -99,17 +133,18 @@ def checkNext (f : Facts) (u : IUnit) (n : Int) (modulate : Bool) (result : Opti
   | some r =>
     if r ≤ f.now then some .notAfterNow
     else match reach f u n modulate with
-    | .either => none
+    | .either => if r ≥ FAR ∨ onBoundary f u n modulate r then none else some .offBoundary
     | .never => if r ≥ FAR then none else some .offBoundary
     | .exact =>
-      if f.chg = some false then
-        if isCalendarUnit u then
-          if f.rciv = some (civilOfMonthIndex (expectedMonthIndex f.civ u n modulate)) then none else some .offBoundary
-        else
-          match f.offRes with
-          | some o => if r + o = expectedLocal f.civ f.lnow u n modulate then none else some .offBoundary
-          | none => some .offBoundary
+      if offsetUnchanged f u n modulate = some true then
+        if onBoundary f u n modulate r then none else some .offBoundary
       else none
+
+/-- outside the statement's domain (`n < 1`) only "no panic" and "strictly after now" are asked -/
+def checkNextAnyN (f : Facts) (result : Option Int) : Option Clause :=
+  match result with
+  | none => some .panics
+  | some r => if r ≤ f.now then some .notAfterNow else none
 
 /-- one consultation of the trigger as observed: fired? and the schedule afterwards, or a panic -/
 abbrev TrigObs := Option (Bool × Int)
@@ -138,5 +173,51 @@ def checkTrigger (maxDelay : Int) : Int → List (Int × Option Int × TrigObs) 
           | none => some (0, .panics)
       else if after ≠ sched then some (0, .schedChanged)
       else bump (checkTrigger maxDelay after rest)
+
+
+/-! ### the boundary stated from local seconds alone
+
+For the units whose period is visible in the local seconds `L` of `current` — second in minute,
+minute in hour, hour in day, and the plain day and week — the specification needs no civil field:
+the minute starts at `L - L % 60`, the hour at `L - L % 3600`, the day at `L - L % 86400`, and
+1970-01-01 was a Thursday. (`expectedLocal` takes the index of the unit in its period from chrono's
+fields; `Properties/C16.lean` proves the two agree when the fields are those of `L`.)
+Reading decision for modulation: "the next multiple of n counted from the start of the enclosing
+period" may lie beyond the end of that period (22:10 with 5 hours: 25:00 = 01:00 of the next day);
+the count is not restarted at the period's end. -/
+def expectedFromL (L : Int) (u : IUnit) (n : Int) (modulate : Bool) : Int :=
+  match u with
+  | .second => if modulate then (L - L % 60) + (L % 60 / n + 1) * n else L + n
+  | .minute => if modulate then (L - L % 3600) + (L / 60 % 60 / n + 1) * n * 60 else (L - L % 60) + n * 60
+  | .hour => if modulate then (L - L % 86400) + (L / 3600 % 24 / n + 1) * n * 3600 else (L - L % 3600) + n * 3600
+  | .day => (L - L % 86400) + n * 86400
+  | .week => (L - L % 86400) - (L / 86400 + 3) % 7 * 86400 + n * 604800
+  | _ => 0
+
+/-! ### "before that record is written": the files on disk
+
+Stated without reference to how the appender works. `flags[i]` describes record `i+1`: `some true`
+the trigger fired on it and it was written, `some false` written without firing, `none` not
+written. `files` are the record numbers found on disk, oldest file first, the active file last. -/
+
+/-- record numbers `i, i+1, …` that were written -/
+def writtenFrom : Nat → List (Option Bool) → List Nat
+  | _, [] => []
+  | i, none :: rest => writtenFrom (i + 1) rest
+  | i, some _ :: rest => i :: writtenFrom (i + 1) rest
+
+/-- record numbers on which the trigger fired (and which were written) -/
+def firedFrom : Nat → List (Option Bool) → List Nat
+  | _, [] => []
+  | i, some true :: rest => i :: firedFrom (i + 1) rest
+  | i, _ :: rest => firedFrom (i + 1) rest
+
+/-- (1) read in order, the files contain exactly the written records, each once, in order;
+(2) the files after the oldest one begin with exactly the records on which the trigger fired, in
+order — so every firing record is the first of a new file (the roll precedes the write), and a new
+file is begun by nothing else. -/
+def filesOk (flags : List (Option Bool)) (files : List (List Nat)) : Bool :=
+  files ≠ [] ∧ files.flatten = writtenFrom 1 flags
+    ∧ files.tail.map List.head? = (firedFrom 1 flags).map some
 
 end Log4rs.TimeTrigger
